@@ -51,7 +51,7 @@ func (round *round4) Start() *tss.Error {
 	round.newOK[i] = true
 
 	// 1-3. verify paillier & dln proofs, store message pieces, ensure uniqueness of h1j, h2j
-	h1H2Map := make(map[string]struct{}, len(round.temp.dgRound2Message1s)*2)
+	h1H2Map := make(map[string]int, len(round.temp.dgRound2Message1s)*2)
 	paiProofCulprits := make([]*tss.PartyID, len(round.temp.dgRound2Message1s)) // who caused the error(s)
 	dlnProof1FailCulprits := make([]*tss.PartyID, len(round.temp.dgRound2Message1s))
 	dlnProof2FailCulprits := make([]*tss.PartyID, len(round.temp.dgRound2Message1s))
@@ -66,13 +66,13 @@ func (round *round4) Start() *tss.Error {
 			return round.WrapError(errors.New("h1j and h2j were equal for this party"), msg.GetFrom())
 		}
 		h1JHex, h2JHex := hex.EncodeToString(H1j.Bytes()), hex.EncodeToString(H2j.Bytes())
-		if _, found := h1H2Map[h1JHex]; found {
-			return round.WrapError(errors.New("this h1j was already used by another party"), msg.GetFrom())
+		if k, found := h1H2Map[h1JHex]; found {
+			return round.WrapError(errors.New("this h1j was already used by another party"), round.duplicateCulprits(j, k)...)
 		}
-		if _, found := h1H2Map[h2JHex]; found {
-			return round.WrapError(errors.New("this h2j was already used by another party"), msg.GetFrom())
+		if k, found := h1H2Map[h2JHex]; found {
+			return round.WrapError(errors.New("this h2j was already used by another party"), round.duplicateCulprits(j, k)...)
 		}
-		h1H2Map[h1JHex], h1H2Map[h2JHex] = struct{}{}, struct{}{}
+		h1H2Map[h1JHex], h1H2Map[h2JHex] = j, j
 		wg.Add(3)
 		go func(j int, msg tss.ParsedMessage, r2msg1 *DGRound2Message1) {
 			defer wg.Done()
